@@ -25,6 +25,51 @@ theorem idealDec_authentic (enc : Nat → UInt8 → Bytes → Bytes) (sent : Lis
     · cases h
   · cases h
 
+/-- the key-independent length checks only ever add rejections -/
+theorem decryptFam_authentic (fam : Family) {inner : Nat → UInt8 → Bytes → Dec} {enc : Nat → UInt8 → Bytes → Bytes}
+    {sent : List (UInt8 × Bytes)} (ha : Authentic inner enc sent) : Authentic (decryptFam fam inner) enc sent := by
+  intro s t c p h
+  unfold decryptFam at h
+  cases fam with
+  | aead e o =>
+    simp only at h
+    split at h
+    · cases h
+    · split at h
+      · cases h
+      · exact ha s t c p h
+  | cbc bs m e =>
+    simp only at h
+    split at h
+    · cases h
+    · exact ha s t c p h
+  | stream m =>
+    simp only at h
+    split at h
+    · cases h
+    · exact ha s t c p h
+
+theorem decryptFam_short (fam : Family) (inner : Nat → UInt8 → Bytes → Dec) (s : Nat) (t : UInt8) (body : Bytes)
+    (h : body.length < minLen fam) : decryptFam fam inner s t body = .fail body.length := by
+  unfold decryptFam
+  cases fam with
+  | aead e o =>
+    simp only [minLen] at h ⊢
+    split
+    · rfl
+    · rw [if_pos (by omega)]
+  | cbc bs m e =>
+    simp only [minLen] at h ⊢
+    rw [if_pos (Or.inr h)]
+  | stream m =>
+    simp only [minLen] at h ⊢
+    rw [if_pos h]
+
+theorem hdr_dec (n : Nat) (h : n < 65536) : hdrLen (UInt8.ofNat (n / 256)) (UInt8.ofNat (n % 256)) = n := by
+  unfold hdrLen
+  simp only [UInt8.toNat_ofNat']
+  omega
+
 /-- bytes waiting in `c.input` that the next `Read` would return -/
 def pend (st : St) : Bytes :=
   match st.err, st.input with
